@@ -1734,6 +1734,9 @@ func c15SeedPart() int {
 
 func (c15) Gen(rng *rand.Rand, tier string, emit func(string)) {
 	g := &c15Gen{rng}
+	if tier == "thorough" && c15FirstSeed() {
+		go c15RaceBuild() // the -race build of this harness for the last case (c15_conc.go), meanwhile
+	}
 	// ---- corpus
 	// D14 (found by this check on the unrepaired FindClosests): the best-so-far reference r0 is longer than the
 	// query (3 bases appended: distance 3, 27 shared 4-mers), the tied reference r1 (3 spread substitutions:
